@@ -15,6 +15,7 @@ LEVEL_TEXT = ("Sibling cross-check of the two interpreters on the MIR: for scan,
               "reports an error).  Decides that the two modes share one control skeleton; does not compare produced graphs.")
 LEVEL_NOTE = ("Not decided: isomorphism of the produced graphs and equality of outcomes over all programs (needs execution or a relational "
               "proof of two interpreters).  Trusted: helper renaming table (evaluate/evaluate_eager, add/add_lazy, test/test_eager).")
+LEVEL_TEXT += (" Also shared between the modes and checked in both: (E3.r) regex-capture lookup and its UndefinedRegexCapture failure; (C04.S/C04.M) strict scoped writes go to the scope node's own map, lazy scoped definitions are memoising thunks; (C04.F) in the lazy scoped store nothing is read between marking a name Forcing and Forced except the forced values themselves (a recursive definition is reported, not looped on).")
 
 
 def _report(rep, rule, f, feats, problems, ids):
